@@ -16,6 +16,7 @@
   logger/recorder options never influence it either.
 -/
 import LDEval.Proofs.Refine
+import LDEval.Proofs.AuditPurity
 
 namespace LD.C12
 
@@ -77,5 +78,312 @@ theorem only_secondary_key_matters (sf n : Nat) (e₁ e₂ : Env) (h : EnvAgree 
 example (o : Opts) (c₁ c₂ : Call) :
     (run o [c₁, c₂]).2 = [evaluate (mkEnv o c₁) c₁.flag, evaluate (mkEnv o c₂) c₂.flag] := by
   simp [run, step]
+
+/-! ## Strengthened statements (theorem audit) -/
+
+/-! What the statements below do NOT establish: that the Go code leaves its inputs unmodified and
+keeps nothing between calls.  Over immutable values this is not expressible at all; it rests on the
+harness (deep input snapshots, histories against one real evaluator) and on the write-set obligation.
+What they DO establish, about the model's `evaluate`: the observation depends on the world (data
+store, big-segment provider) only through the ANSWERS to the keys that are actually looked up, and
+not on the amount of fuel — so any two worlds that answer those keys alike are indistinguishable,
+whatever else they contain and however the world changed between calls. -/
+
+/-- The same call against another data store and big-segment provider. -/
+def Call.withWorld (c : Call) (s : Store) (b : Option BSProvider) : Call :=
+  { c with store := s, bs := b }
+
+theorem mkEnv_withWorld (o : Opts) (c : Call) (s : Store) (b : Option BSProvider) :
+    mkEnv o (c.withWorld s b) = (mkEnv o c).with s b := rfl
+
+/-- **The observation is a function of the answers actually used.**  The observation of a call is
+determined by the options, the context, the flag, the regex oracle and the ANSWERS of the data store
+and the big-segment provider to the keys the call looks up (all of which it records).  This is
+stronger than "same store ⇒ same result": for the Go code, nothing else of the `DataProvider` object —
+other entries, their number or order, internal fields — and nothing else of the
+`BigSegmentProvider` can influence an evaluation. -/
+theorem observation_extensional (o : Opts) (c : Call) (s : Store) (b : Option BSProvider)
+    (hf : ∀ k ∈ (evaluate (mkEnv o c) c.flag).flagLookups, s.findFlag k = c.store.findFlag k)
+    (hs : ∀ k ∈ (evaluate (mkEnv o c) c.flag).segLookups,
+      s.findSegment k = c.store.findSegment k)
+    (hn : b.isSome = c.bs.isSome)
+    (hb : ∀ k ∈ (evaluate (mkEnv o c) c.flag).bsQueries, ∀ p₁ p₂, c.bs = some p₁ → b = some p₂ →
+      p₂.get k = p₁.get k) :
+    evaluate (mkEnv o (c.withWorld s b)) c.flag = evaluate (mkEnv o c) c.flag :=
+  evaluate_store_ext (mkEnv o c) s b c.flag hf hs hn hb
+
+/-- The amount of fuel is irrelevant above the amount `evaluate` hands out: the run (result and
+whole per-call state) is the same.  The Go code has no fuel; this says the model's bound is not
+observable (general observation G2 of the audit). -/
+theorem fuel_irrelevant (o : Opts) (c : Call) {sf n : Nat} (hs : segFuel c.store ≤ sf)
+    (hn : flagFuel c.store ≤ n) :
+    evalFlag sf n (mkEnv o c) c.flag [] {} =
+      evalFlag (segFuel c.store) (flagFuel c.store) (mkEnv o c) c.flag [] {} :=
+  evalFlag_fuel_irrelevant (mkEnv o c) c.flag hs hn
+
+/-- Entries filed under keys that the call never looks up — put before or after the existing
+entries of the flag table and of the segment table — change nothing of the observation. -/
+theorem unrelated_entries_irrelevant (o : Opts) (c : Call)
+    (preF postF : List (String × Flag)) (preS postS : List (String × Segment))
+    (hF : ∀ k ∈ (evaluate (mkEnv o c) c.flag).flagLookups, ∀ x ∈ preF ++ postF, x.1 ≠ k)
+    (hS : ∀ k ∈ (evaluate (mkEnv o c) c.flag).segLookups, ∀ x ∈ preS ++ postS, x.1 ≠ k) :
+    evaluate (mkEnv o (c.withWorld
+      { flags := preF ++ c.store.flags ++ postF, segments := preS ++ c.store.segments ++ postS }
+      c.bs)) c.flag = evaluate (mkEnv o c) c.flag :=
+  observation_extensional o c _ c.bs
+    (fun k hk => Store.findFlag_surround c.store preF postF _ k (hF k hk))
+    (fun k hk => Store.findSegment_surround c.store preS postS _ k (hS k hk))
+    rfl (fun _ _ p₁ p₂ h₁ h₂ => by rw [h₁] at h₂; cases h₂; rfl)
+
+/-- The converse direction: entries under keys the call never looks up can be REMOVED.  The
+hypotheses are about the lookups of the call against the larger store. -/
+theorem unrelated_entries_removable (o : Opts) (c : Call) (fl : List (String × Flag))
+    (sg : List (String × Segment))
+    (preF postF : List (String × Flag)) (preS postS : List (String × Segment))
+    (hstore : c.store = { flags := preF ++ fl ++ postF, segments := preS ++ sg ++ postS })
+    (hF : ∀ k ∈ (evaluate (mkEnv o c) c.flag).flagLookups, ∀ x ∈ preF ++ postF, x.1 ≠ k)
+    (hS : ∀ k ∈ (evaluate (mkEnv o c) c.flag).segLookups, ∀ x ∈ preS ++ postS, x.1 ≠ k) :
+    evaluate (mkEnv o (c.withWorld { flags := fl, segments := sg } c.bs)) c.flag =
+      evaluate (mkEnv o c) c.flag :=
+  observation_extensional o c _ c.bs
+    (fun k hk => by
+      rw [hstore]
+      exact (Store.findFlag_surround { flags := fl, segments := sg } preF postF _ k
+        (hF k hk)).symm)
+    (fun k hk => by
+      rw [hstore]
+      exact (Store.findSegment_surround { flags := fl, segments := sg } preS postS _ k
+        (hS k hk)).symm)
+    rfl (fun _ _ p₁ p₂ h₁ h₂ => by rw [h₁] at h₂; cases h₂; rfl)
+
+/-! ### A concrete store: a flag with one prerequisite, and an unrelated entry -/
+
+def exGate : Flag :=
+  { key := "gate", on := true, fallthrough := { variation := some 0 }, variations := [.bool true] }
+def exOther : Flag :=
+  { key := "other", on := true, fallthrough := { variation := some 0 }, variations := [.num 7] }
+def exOther' : Flag :=
+  { key := "other", on := false, offVariation := some 0, variations := [.str "changed"] }
+def exFeature : Flag :=
+  { key := "feature", on := true, prerequisites := [⟨"gate", 0⟩],
+    fallthrough := { variation := some 1 }, variations := [.bool false, .bool true] }
+def exCtx : Ctx := .single { kind := "user", key := "u" }
+def exCall : Call :=
+  { store := { flags := [("gate", exGate), ("other", exOther)] }, bs := none, ctx := exCtx,
+    rx := fun _ _ => none, flag := exFeature }
+
+/-- The call looks up exactly the prerequisite, finds it, and falls through. -/
+theorem exCall_obs :
+    (evaluate (mkEnv {} exCall) exFeature).flagLookups = ["gate"] ∧
+    (evaluate (mkEnv {} exCall) exFeature).segLookups = [] ∧
+    (evaluate (mkEnv {} exCall) exFeature).bsQueries = [] ∧
+    (evaluate (mkEnv {} exCall) exFeature).result.detail.reason = Reason.fallthrough ∧
+    (evaluate (mkEnv {} exCall) exFeature).result.detail.index = some 1 ∧
+    (evaluate (mkEnv {} exCall) exFeature).events.length = 1 := by decide
+
+theorem exCall_flagLookups :
+    (evaluate (mkEnv {} exCall) exCall.flag).flagLookups = ["gate"] := exCall_obs.1
+theorem exCall_segLookups : (evaluate (mkEnv {} exCall) exCall.flag).segLookups = [] :=
+  exCall_obs.2.1
+theorem exCall_bsQueries : (evaluate (mkEnv {} exCall) exCall.flag).bsQueries = [] :=
+  exCall_obs.2.2.1
+
+-- Non-vacuity of `observation_extensional`: the unrelated entry is CHANGED and moved to the front.
+example :
+    evaluate (mkEnv {} (exCall.withWorld { flags := [("other", exOther'), ("gate", exGate)] } none))
+      exFeature = evaluate (mkEnv {} exCall) exFeature :=
+  observation_extensional {} exCall _ none
+    (by intro k hk; rw [exCall_flagLookups] at hk; simp at hk; subst hk; rfl)
+    (by intro k hk; rw [exCall_segLookups] at hk; simp at hk)
+    rfl
+    (by intro k hk; rw [exCall_bsQueries] at hk; simp at hk)
+
+-- … and the hypothesis cannot be dropped: changing the answer to the looked-up key changes the result.
+example :
+    (evaluate (mkEnv {} (exCall.withWorld { flags := [("other", exOther)] } none))
+      exFeature).result.detail.reason ≠ (evaluate (mkEnv {} exCall) exFeature).result.detail.reason := by
+  decide
+
+-- Non-vacuity of `unrelated_entries_irrelevant`: entries under "x" and "y" around the two entries.
+example :
+    evaluate (mkEnv {} (exCall.withWorld
+      { flags := [("x", exOther')] ++ exCall.store.flags ++ [("y", exFeature)],
+        segments := [] ++ exCall.store.segments ++ [] } exCall.bs)) exFeature =
+      evaluate (mkEnv {} exCall) exFeature :=
+  unrelated_entries_irrelevant {} exCall [("x", exOther')] [("y", exFeature)] [] []
+    (by intro k hk; rw [exCall_flagLookups] at hk; simp at hk; subst hk; decide)
+    (by intro k hk; rw [exCall_segLookups] at hk; simp at hk)
+
+-- Non-vacuity of `unrelated_entries_removable`: the entry "other" is removed.
+example :
+    evaluate (mkEnv {} (exCall.withWorld { flags := [("gate", exGate)], segments := [] } exCall.bs))
+      exFeature = evaluate (mkEnv {} exCall) exFeature :=
+  unrelated_entries_removable {} exCall [("gate", exGate)] [] [] [("other", exOther)] [] [] rfl
+    (by intro k hk; rw [exCall_flagLookups] at hk; simp at hk; subst hk; decide)
+    (by intro k hk; rw [exCall_segLookups] at hk; simp at hk)
+
+/-! ### Histories in which the world changes between calls -/
+
+/-- The data store and the big-segment provider of one moment. -/
+abbrev World := Store × Option BSProvider
+
+/-- What happens to an evaluator over time: the world is replaced (`update`, e.g. a new flag
+version arrives, a segment is deleted, the big-segment store goes away) or `Evaluate` is called. -/
+inductive Action where
+  | update (s : Store) (b : Option BSProvider)
+  | call (ctx : Ctx) (rx : RegexOracle) (flag : Flag)
+
+def envAt (o : Opts) (w : World) (ctx : Ctx) (rx : RegexOracle) : Env :=
+  { opts := o, store := w.1, bs := w.2, ctx := ctx, rx := rx }
+
+/-- One action: an update replaces the world; a call evaluates against the world of that moment and
+returns the evaluator's state (its options) and the world unchanged. -/
+def stepAction (σ : Opts × World) : Action → (Opts × World) × Option Obs
+  | .update s b => ((σ.1, (s, b)), none)
+  | .call ctx rx f => (σ, some (evaluate (envAt σ.1 σ.2 ctx rx) f))
+
+def runFrom (σ : Opts × World) : List Action → (Opts × World) × List Obs
+  | [] => (σ, [])
+  | a :: as =>
+    let r := stepAction σ a
+    let rest := runFrom r.1 as
+    (rest.1, r.2.toList ++ rest.2)
+
+/-- A history of updates and calls against one evaluator, starting in world `w`. -/
+def runActions (o : Opts) (w : World) (as : List Action) : (Opts × World) × List Obs :=
+  runFrom (o, w) as
+
+/-- The world after a history: the last update, if any. -/
+def worldAfter (w : World) : List Action → World
+  | [] => w
+  | .update s b :: as => worldAfter (s, b) as
+  | .call _ _ _ :: as => worldAfter w as
+
+/-- Every call of a history paired with the world of its moment. -/
+def callsAt (w : World) : List Action → List (World × Ctx × RegexOracle × Flag)
+  | [] => []
+  | .update s b :: as => callsAt (s, b) as
+  | .call ctx rx f :: as => (w, ctx, rx, f) :: callsAt w as
+
+theorem callsAt_append (w : World) (as bs : List Action) :
+    callsAt w (as ++ bs) = callsAt w as ++ callsAt (worldAfter w as) bs := by
+  induction as generalizing w with
+  | nil => rfl
+  | cons a as ih => cases a <;> simp [callsAt, worldAfter, ih]
+
+theorem worldAfter_append (w : World) (as bs : List Action) :
+    worldAfter w (as ++ bs) = worldAfter (worldAfter w as) bs := by
+  induction as generalizing w with
+  | nil => rfl
+  | cons a as ih => cases a <;> simp [worldAfter, ih]
+
+/-- The final state of a history: the options as constructed, the world of the last update. -/
+theorem runActions_state (o : Opts) (w : World) (as : List Action) :
+    (runActions o w as).1 = (o, worldAfter w as) := by
+  unfold runActions
+  induction as generalizing w with
+  | nil => rfl
+  | cons a as ih => cases a <;> simp [runFrom, stepAction, worldAfter, ih]
+
+/-- The options are never changed, by calls or by updates of the world. -/
+theorem runActions_opts (o : Opts) (w : World) (as : List Action) : (runActions o w as).1.1 = o := by
+  rw [runActions_state]
+
+/-- Call by call, the observations of a history are the FRESH `evaluate` on the world of that
+moment: nothing of earlier calls or earlier worlds enters. -/
+theorem runActions_outputs (o : Opts) (w : World) (as : List Action) :
+    (runActions o w as).2 =
+      (callsAt w as).map fun c => evaluate (envAt o c.1 c.2.1 c.2.2.1) c.2.2.2 := by
+  unfold runActions
+  induction as generalizing w with
+  | nil => rfl
+  | cons a as ih => cases a <;> simp [runFrom, stepAction, callsAt, ih]
+
+theorem runActions_append (o : Opts) (w : World) (as bs : List Action) :
+    (runActions o w (as ++ bs)).2 = (runActions o w as).2 ++ (runActions o (worldAfter w as) bs).2 := by
+  simp [runActions_outputs, callsAt_append]
+
+/-- After ANY history of calls and updates, a call is answered exactly as a freshly constructed
+evaluator would answer it in the world the history has left. -/
+theorem history_independent_changing (o : Opts) (w : World) (hist : List Action) (ctx : Ctx)
+    (rx : RegexOracle) (f : Flag) :
+    (runActions o w (hist ++ [.call ctx rx f])).2 =
+      (runActions o w hist).2 ++ [evaluate (envAt o (worldAfter w hist) ctx rx) f] := by
+  rw [runActions_append]; rfl
+
+/-- Two consecutive identical calls with no update between them give identical observations,
+after any history. -/
+theorem repeat_identical_changing (o : Opts) (w : World) (hist : List Action) (ctx : Ctx)
+    (rx : RegexOracle) (f : Flag) :
+    (runActions o w (hist ++ [.call ctx rx f, .call ctx rx f])).2 =
+      (runActions o w hist).2 ++ [evaluate (envAt o (worldAfter w hist) ctx rx) f,
+        evaluate (envAt o (worldAfter w hist) ctx rx) f] := by
+  rw [runActions_append]; rfl
+
+/-- **An update outside the lookups is invisible.**  If, between two identical calls, the world is
+replaced by one that answers every key the FIRST call looked up as before (and still has, or still
+lacks, a big-segment provider), the second observation equals the first — result, events, log
+lines, lookups, queries.  For the Go code: a data-store update that touches only flags and segments
+an evaluation does not reach cannot change that evaluation. -/
+theorem update_outside_lookups_invisible (o : Opts) (w : World) (hist : List Action) (ctx : Ctx)
+    (rx : RegexOracle) (f : Flag) (s : Store) (b : Option BSProvider)
+    (hf : ∀ k ∈ (evaluate (envAt o (worldAfter w hist) ctx rx) f).flagLookups,
+      s.findFlag k = (worldAfter w hist).1.findFlag k)
+    (hs : ∀ k ∈ (evaluate (envAt o (worldAfter w hist) ctx rx) f).segLookups,
+      s.findSegment k = (worldAfter w hist).1.findSegment k)
+    (hn : b.isSome = (worldAfter w hist).2.isSome)
+    (hb : ∀ k ∈ (evaluate (envAt o (worldAfter w hist) ctx rx) f).bsQueries, ∀ p₁ p₂,
+      (worldAfter w hist).2 = some p₁ → b = some p₂ → p₂.get k = p₁.get k) :
+    (runActions o w (hist ++ [.call ctx rx f, .update s b, .call ctx rx f])).2 =
+      (runActions o w hist).2 ++ [evaluate (envAt o (worldAfter w hist) ctx rx) f,
+        evaluate (envAt o (worldAfter w hist) ctx rx) f] := by
+  rw [runActions_append]
+  have h := evaluate_store_ext (envAt o (worldAfter w hist) ctx rx) s b f hf hs hn hb
+  show _ ++ [evaluate (envAt o (worldAfter w hist) ctx rx) f,
+    evaluate ((envAt o (worldAfter w hist) ctx rx).with s b) f] = _
+  rw [h]
+
+-- Non-vacuity of `update_outside_lookups_invisible`: after a history (an unrelated call, an update),
+-- the entry "other" is changed and a flag "new" is added between two identical calls.
+example :
+    (runActions {} ({}, none)
+      ([.call exCtx (fun _ _ => none) exOther, .update exCall.store none] ++
+        [.call exCtx (fun _ _ => none) exFeature,
+         .update { flags := [("new", exOther), ("gate", exGate), ("other", exOther')] } none,
+         .call exCtx (fun _ _ => none) exFeature])).2 =
+      (runActions {} ({}, none)
+        [.call exCtx (fun _ _ => none) exOther, .update exCall.store none]).2 ++
+      [evaluate (mkEnv {} exCall) exFeature, evaluate (mkEnv {} exCall) exFeature] :=
+  update_outside_lookups_invisible {} ({}, none) _ exCtx (fun _ _ => none) exFeature _ none
+    (by intro k hk
+        change k ∈ (evaluate (mkEnv {} exCall) exCall.flag).flagLookups at hk
+        rw [exCall_flagLookups] at hk; simp at hk; subst hk; rfl)
+    (by intro k hk
+        change k ∈ (evaluate (mkEnv {} exCall) exCall.flag).segLookups at hk
+        rw [exCall_segLookups] at hk; simp at hk)
+    rfl
+    (by intro k hk
+        change k ∈ (evaluate (mkEnv {} exCall) exCall.flag).bsQueries at hk
+        rw [exCall_bsQueries] at hk; simp at hk)
+
+-- … and an update that DOES change a looked-up answer is visible (the prerequisite disappears).
+example :
+    ((runActions {} (exCall.store, none)
+      [.call exCtx (fun _ _ => none) exFeature, .update { flags := [("other", exOther)] } none,
+       .call exCtx (fun _ _ => none) exFeature]).2.map (·.result.detail.reason.kind)) =
+      [.fallthrough, .prereqFailed] := by decide
+
+-- A history with a changing world: three calls, two updates, three observations.
+example :
+    ((runActions {} ({}, none)
+      [.call exCtx (fun _ _ => none) exFeature, .update exCall.store none,
+       .call exCtx (fun _ _ => none) exFeature, .update {} none,
+       .call exCtx (fun _ _ => none) exFeature]).2.map (·.flagLookups)) =
+      [["gate"], ["gate"], ["gate"]] ∧
+    ((runActions {} ({}, none)
+      [.call exCtx (fun _ _ => none) exFeature, .update exCall.store none,
+       .call exCtx (fun _ _ => none) exFeature, .update {} none,
+       .call exCtx (fun _ _ => none) exFeature]).2.map (·.result.detail.reason.kind)) =
+      [.prereqFailed, .fallthrough, .prereqFailed] := by decide
 
 end LD.C12
